@@ -54,6 +54,8 @@ pub enum Work {
     Points { cap: usize, parties: usize },
     Process { cap: usize, parties: usize },
     Reference { cap: usize, parties: usize },
+    /// many parties, tiny capacity: distinctness across party indices beyond one byte / two bytes
+    ManyParties { cap: usize, parties: usize },
 }
 
 #[derive(Clone, Debug, Serialize, Deserialize)]
@@ -262,6 +264,36 @@ fn run_case<G: AffineRepr + RefGens>(big: &Big<G>, curve: &str, pinned: &serde_j
             o.sig(format!("{}|process|{}x{}", curve, cap, parties));
             o.sample = Some(json!({"curve": curve, "capacity": cap, "parties": parties, "digest": here}));
         }
+        Work::ManyParties { cap, parties } => {
+            let g = BulletproofGens::<G>::new(*cap, *parties);
+            let (rg, rh, _, _) = G::ref_tables(*cap, *parties);
+            let mut set: BTreeSet<Vec<u8>> = BTreeSet::new();
+            let mut k = 0usize;
+            let gs: Vec<Vec<u8>> = g.G(*cap, *parties).map(enc).collect();
+            let hs: Vec<Vec<u8>> = g.H(*cap, *parties).map(enc).collect();
+            if gs.len() != cap * parties || hs.len() != cap * parties {
+                o.violate("many-parties-view-length", format!("G({}, {}) has {} elements", cap, parties, gs.len()), ctxj(String::new()));
+                return o;
+            }
+            for j in 0..*parties {
+                for i in 0..*cap {
+                    o.evals += 1;
+                    for (nm, e) in [("G", &gs[k]), ("H", &hs[k])] {
+                        if !set.insert(e.clone()) {
+                            o.violate("generator-duplicate-across-parties", format!("{} generator (party {}, index {}) duplicates another party's generator", nm, j, i), ctxj(format!("party {}", j)));
+                            return o;
+                        }
+                    }
+                    if gs[k] != rg[k] || hs[k] != rh[k] {
+                        o.violate("differs-from-reference", format!("generator (party {}, index {}) differs from the reference revision's", j, i), ctxj(String::new()));
+                        return o;
+                    }
+                    k += 1;
+                }
+            }
+            o.count("many-parties: entries distinct and equal to reference", k as u64);
+            o.sig(format!("{}|many-parties|{}x{}", curve, cap, parties));
+        }
         Work::Reference { cap, parties } => {
             let (rg, rh, rb, rbb) = G::ref_tables(*cap, *parties);
             let pc = PedersenGens::<G>::default();
@@ -317,6 +349,11 @@ fn cases(ctx: &Ctx, curve: &str, big_n: usize, big_m: usize) -> Vec<Case> {
         v.push(Case { curve: curve.into(), work: Work::Process { cap, parties } });
     }
     v.push(Case { curve: curve.into(), work: Work::Reference { cap: big_n, parties: big_m } });
+    v.push(Case { curve: curve.into(), work: Work::ManyParties { cap: 2, parties: 300 } });
+    v.push(Case { curve: curve.into(), work: Work::ManyParties { cap: 1, parties: 520 } });
+    if ctx.tier == Tier::Thorough {
+        v.push(Case { curve: curve.into(), work: Work::ManyParties { cap: 1, parties: 65_600 } });
+    }
     v
 }
 
